@@ -168,11 +168,13 @@ def chain_file(r):
     src, mk, ik = r.choice(nests()[0])
     o, m, i = ("(module) @m ", "m"), ("(%s) @mid " % mk, "mid"), ("(%s) @inn " % ik, "inn")
     steps = [("def", o), ("read", i), ("def", m), ("read", i)]
-    k = r.randrange(4)
+    k = r.randrange(5)
     if k == 1:
         steps = [("def", m), ("read", i), ("def", o), ("read", i)]
     elif k == 2:
         steps = [("read", i), ("def", m), ("def", o), ("read", i), ("read", m)]
+    elif k == 3:        # every definition before every read (order-insensitive): root only, or root and middle
+        steps = [("def", o)] + ([("def", m)] if r.random() < 0.5 else []) + [("read", i), ("read", m)]
     if r.random() < 0.3:
         steps.insert(r.randrange(len(steps)), ("read", m))
     if r.random() < 0.15:
